@@ -121,6 +121,12 @@ func skeleton(body *ast.BlockStmt, forwardCall func(*ast.CallExpr) bool) []ev {
 				}
 				evs = append(evs, ev{"term", ctorOf(t.Args[1]), exprName(t.Args[2])})
 				return false
+			case "ErrorNegotiated": // responsewriters.ErrorNegotiated(err, s, gv, w, req): a Status written directly
+				if len(t.Args) != 5 {
+					lib.Fatalf("ErrorNegotiated call has %d arguments", len(t.Args))
+				}
+				evs = append(evs, ev{"term", ctorOf(t.Args[0]), "ErrorNegotiated"})
+				return false
 			case "TryAcquire":
 				evs = append(evs, ev{kind: "acquire"})
 			case "Release":
@@ -304,6 +310,72 @@ func main() {
 			lib.Fatalf("the `GetResource() != \"...\"` guard of retryAfter = response.RetryAfter was not found in dispatcher.ServeHTTP")
 		}
 		fmt.Fprintf(&b, "/-- the resource whose rate-limited answer carries no Retry-After -/\ndef rateLimitExemptResourceName : String := %q\ndef rateLimitExemptResource : List UInt8 := %s\n", exempt, bytesLit(exempt))
+
+		// 6. WithRequestInfo (since bd02b39 the gateway's own filter): a resolver error is answered with a Status
+		const rif = "pkg/gateway/endpoints/filters/requestinfo.go"
+		rd := lib.FuncDecl(g.ParseFile(rif), "", "WithRequestInfo")
+		if rd == nil {
+			lib.Fatalf("filters.WithRequestInfo is not a function of the gateway any more (an alias of the generic filter answers a resolver error with text/plain)")
+		}
+		var rinner *ast.FuncLit
+		ast.Inspect(rd.Body, func(n ast.Node) bool {
+			if fl, ok := n.(*ast.FuncLit); ok && rinner == nil {
+				rinner = fl
+				return false
+			}
+			return true
+		})
+		if rinner == nil {
+			lib.Fatalf("WithRequestInfo has no handler literal")
+		}
+		revs := skeleton(rinner.Body, func(c *ast.CallExpr) bool { return exprName(c.Fun) == "handler.ServeHTTP" })
+		fmt.Fprintf(&b, "/-- skeleton of the WithRequestInfo handler (%s) -/\ndef requestInfoSteps : List Ev := [\n", rif)
+		for i, e := range revs {
+			sep := ","
+			if i == len(revs)-1 {
+				sep = ""
+			}
+			fmt.Fprintf(&b, "  %s%s\n", e.lean(), sep)
+		}
+		b.WriteString("]\n")
+		// number of arguments of the WithRequestInfo call in the chain (handler, resolver, serializer)
+		riArgs := 0
+		ast.Inspect(inner.Body, func(n ast.Node) bool {
+			if c, ok := n.(*ast.CallExpr); ok && lastSel(c.Fun) == "WithRequestInfo" {
+				riArgs = len(c.Args)
+			}
+			return true
+		})
+		fmt.Fprintf(&b, "/-- arguments of the WithRequestInfo call in buildProxyHandlerChainFunc (handler, resolver, serializer) -/\ndef requestInfoCallArgs : Nat := %d\n", riArgs)
+
+		// 7. the escaped path handed to the proxy (since 85b204e): `location.RawPath = escapeInvalidPathBytes(req.URL.RawPath)`,
+		// and the punctuation escapeInvalidPathBytes leaves alone
+		rawPathExpr := ""
+		ast.Inspect(sd.Body, func(n ast.Node) bool {
+			if as, ok := n.(*ast.AssignStmt); ok && len(as.Lhs) == 1 && len(as.Rhs) == 1 && exprName(as.Lhs[0]) == "location.RawPath" {
+				rawPathExpr = exprName(as.Rhs[0])
+				if c, ok := as.Rhs[0].(*ast.CallExpr); ok && len(c.Args) == 1 {
+					rawPathExpr = exprName(c.Fun) + "(" + exprName(c.Args[0]) + ")"
+				}
+			}
+			return true
+		})
+		if rawPathExpr == "" {
+			lib.Fatalf("dispatcher.ServeHTTP no longer assigns location.RawPath")
+		}
+		punct := ""
+		if ed := lib.FuncDecl(g.ParseFile(disp), "", "escapeInvalidPathBytes"); ed != nil {
+			ast.Inspect(ed.Body, func(n ast.Node) bool {
+				if c, ok := n.(*ast.CallExpr); ok && exprName(c.Fun) == "strings.IndexByte" && len(c.Args) == 2 {
+					if bl, ok := c.Args[0].(*ast.BasicLit); ok && bl.Kind == token.STRING {
+						punct, _ = strconv.Unquote(bl.Value)
+					}
+				}
+				return true
+			})
+		}
+		fmt.Fprintf(&b, "/-- what dispatcher.ServeHTTP assigns to location.RawPath -/\ndef locationRawPathExpr : String := %q\n", rawPathExpr)
+		fmt.Fprintf(&b, "/-- the punctuation `escapeInvalidPathBytes` leaves alone besides letters and digits (empty: the function is gone) -/\ndef validPathPunct : List UInt8 := %s\n", bytesLit(punct))
 
 		b.WriteString("end KG.Gen.C04\n")
 		g.Emit("C04.lean", b.String())
